@@ -114,6 +114,9 @@ var fnTable = map[string]fnSpec{
 	"time": optional(2, kTime, kCTFmt, kCTz), "timeformat": optional(2, kInt, kCTFmt, kCTz), "timeattr": optional(1, kInt, kCAttr, kCTz),
 	"buckettime": optional(2, kTime, kCBucket, kCTFmt, kCTz), "duration": fixed(kDur), "durationformat": fixed(kInt),
 	"color": fixed(kCColor, kAny), "repeat": fixed(kCStr, kSize), "bar": optional(1, kInt, kCInt, kCSize, kCScaler),
+	// user functions (guard_test.go userFuncsFile)
+	"u_double": fixed(kInt), "u_pick": optional(2, kCond, kAny, kAny), "u_div": fixed(kInt, kInt), "u_edge": optional(1, kAny),
+	"u_rep": fixed(kSize), "u_nest": fixed(kInt, kInt), "u_arr": fixed(kArr),
 }
 
 // allFunctions is the registered table (funclib.Builtins = stdlib.StandardFunctions
@@ -129,7 +132,7 @@ func allFunctions() []string {
 		}
 	}
 	sort.Strings(names)
-	return names
+	return append(names, userFuncNames...)
 }
 
 var functionNames = allFunctions()
@@ -186,7 +189,7 @@ var (
 	keyNames   = []string{"k", "key", "a", "x", "n", "src", "line", ".", "#", "@", ".#", "val", "a b", "é", "", "1.0", "-", "k2"}
 	sizeSmall  = []string{"0", "1", "2", "3", "4", "5", "7", "8", "9", "10", "15", "16", "17", "31", "32", "33", "63", "64", "65", "100", "127", "128", "255", "256", "257"}
 	sizeMedium = []string{"1000", "1023", "1024", "4096", "9999", "10000"}
-	sizeNeg    = []string{"-1", "-2", "-10", "-" + two62, minI64, "-9223372036854775807", "-2147483649"}
+	sizeNeg    = []string{"-1", "-2", "-10", "-" + two62, minI64, "-9223372036854775807", "-2147483649", "-6141686018427387904", "-1152921504606846977", "-3458764513820540929", "-6917529027641081857"}
 	sizeJunk   = []string{"", " ", "abc", "1.5", "1e3", "+3", "03", "0x10", pastI64, maxU64, over64, "NaN", "\x00", "3 ", "٣"}
 )
 
